@@ -34,7 +34,8 @@ RULE = ('1-D: input pixel i at loglam c0+1e-4*i; a case = (n, zero-weight bit pa
         'pixels, D in {24, 40, 100}, plus half a pixel for odd e) x bad runs x ivar shape {constant, ramp, non-monotone} x output '
         'grid {each exposure grid, +0.3 px, wider}; scaling ladder: (base case, c) for every c of a 10-step ladder; non-uniform grids: every zero-weight pattern x (input grid, '
         'output grid) over {uniform, dispersion drifting +8%..-8%, -8%..+8%} x {same, 3 more uniform pixels, 2 fewer drifting '
-        'pixels}, all with identical end points. preprocess: (objects, redshifts, feature position, 1-D/2-D loglam, own/given output grid). '
+        'pixels}, all with identical end points; the same grids displaced by +-5e-8, +-3e-7, +-2e-6 dex; flux dtype menu {float64, float32, '
+        'int16, int32, int64} on integer-valued counts. preprocess: (objects, redshifts, feature position, 1-D/2-D loglam, own/given output grid). '
         'Non-trivial = at least one good input pixel and at least one output pixel inside the input range (1-D/2-D), every '
         'preprocess case. Distinct = distinct case tuples.')
 ASSUMPTIONS = [
@@ -59,6 +60,11 @@ ASSUMPTIONS = [
     'non-uniform grids: the zero rule, np.interp and the local maximum are evaluated at the true log-wavelengths passed to the '
     'function; cases in which an output pixel lies within 1e-3 px of an input pixel without being bit-identical to it are '
     'skipped (the code treats positions within float32 eps of a pixel as on it); the clean-interior guard uses 6 px',
+    'displaced grids: the output grid is the input grid + {5e-8, 3e-7, 2e-6} dex on either side (0.0005-0.02 px: below, just above '
+    'and well above float32 eps in dex); no don\'t-care band is needed because the only positional tolerance the code documents '
+    '(smask >= 1-EPS) is 1.2e-7 of a PIXEL; a pixel outside the data by any of these amounts must have ivar exactly 0',
+    'flux dtype: the same integer-valued counts (1000 + 3k, 1000) as float64/float32/int16/int32/int64 must satisfy the same '
+    'clauses (float32: scaling to 1e-5); the dtype of the returned arrays is not constrained',
     'stacked exposures have 128 pixels and at most 24 bad ones, so >= 101 good pixels each as the variance smoothing assumes',
     'without objivar only shape, finiteness, ivar >= 0, the zero rule outside the input range and the constant/identity clauses are checked',
     'preprocess_spectra: the feature position is the output pixel of maximum flux among pixels with ivar > 0; "moves to '
@@ -477,18 +483,31 @@ def check_nu(case):
     px = nu_pos(case['gin'], n)
     py = nu_pos(case['gout'], n)
     lx, ly = lam(px), lam(py)
-    # stay away from near-coincidences (the code treats positions within float32 eps of a pixel as on it)
-    for j, v in enumerate(py):
-        dmin = min(abs(v - u) for u in px)
-        if 0 < dmin < 1e-3 or (dmin == 0 and not np.any(lx == ly[j])):
-            return [], 'skip:output pixel within 1e-3 px of an input pixel without coinciding'
+    dex = float(case.get('dex') or 0.0)
+    if dex:
+        # the whole output grid displaced by a tiny amount in log10-wavelength (rounding-sized up to a few float32 eps):
+        # every output pixel is then strictly between two input pixels or strictly outside the data
+        ly = ly + dex
+        py = [v + dex / DL for v in py]
+    # Don't-care band.  The code documents one tolerance on the *position* of an output pixel relative to an input pixel:
+    # `smask >= 1 - EPS`, i.e. within float32 eps (1.2e-7) of a PIXEL (1.2e-11 dex) an output pixel counts as on the input
+    # pixel.  Displacements enumerated here are >= 5e-4 px, far outside that band; anything closer than 1e-6 px (1e-3 px on
+    # the drifting grids, where near-coincidences would be accidental) without being bit-identical is skipped.
+    tol = 1e-6 if dex else 1e-3
+    for j in range(len(ly)):
+        dmin = float(np.min(np.abs(lx - ly[j]))) / DL
+        if (0 < dmin < tol) and not np.any(lx == ly[j]):
+            return [], 'skip:output pixel within %g px of an input pixel without coinciding' % tol
     fin = fluxf(case['flux'], px)
     iv = ivar_in(case['ivar'], n, case['zeros'])
-    good = [bool(v > 0) for v in iv]
+    good = [True] * n if iv is None else [bool(v > 0) for v in iv]
+    kw = {'aesthetics': case['aes']}
+    if iv is not None:
+        kw['objivar'] = iv.copy()
     try:
-        nf, ni = combine1fiber(lx, fin.copy(), ly, objivar=iv.copy(), aesthetics=case['aes'])
+        nf, ni = combine1fiber(lx, fin.copy(), ly, **kw)
     except Exception as e:
-        return [(exc_sig(E, e, False), repr(e)[:300])], 'raises-' + type(e).__name__
+        return [(exc_sig(E, e, iv is None), repr(e)[:300])], 'raises-' + type(e).__name__
     bad = []
     if not basic_checks(E, nf, ni, len(py), case['aes'], bad):
         return bad, 'malformed'
@@ -500,8 +519,9 @@ def check_nu(case):
         if sig not in seen:
             seen.add(sig)
             bad.append((sig, msg))
-    expiv = np.interp(ly, lx, iv)
+    expiv = np.interp(ly, lx, iv if iv is not None else np.ones(n))
     ftrue = fluxf(case['flux'], py)
+    ivq = iv if iv is not None else np.ones(n)
     nlive = 0
     for j, v in enumerate(ly):
         ok, i0, i1 = allowed_at(v, lx, good)
@@ -509,15 +529,16 @@ def check_nu(case):
             if not ok:
                 why = 'no-good-input' if not any(good) else ('outside-input-range' if i0 is None else
                                                             ('on-bad-pixel' if i0 == i1 else 'next-to-bad-pixel'))
-                add('%s:ivar-nonzero:%s' % (E, why), 'output pixel %d (position %.4f px) has ivar %r' % (j, py[j], ni[j]))
+                add('%s:ivar-nonzero:%s' % (E, why), 'output pixel %d (position %.7f px%s) has ivar %r'
+                    % (j, py[j], (', grid displaced by %g dex' % dex) if dex else '', ni[j]))
                 continue
-            if abs(ni[j] - expiv[j]) > 1e-9 * abs(expiv[j]):
+            if iv is not None and abs(ni[j] - expiv[j]) > 1e-9 * abs(expiv[j]):
                 add(E + ':ivar-not-interpolated', 'output pixel %d (position %.4f px) ivar %r, interpolated input %r' % (j, py[j], ni[j], expiv[j]))
-            if ni[j] > max(iv[i0], iv[i1]) * (1 + 1e-12):
-                add(E + ':ivar-above-local-max', 'output pixel %d (position %.4f px) ivar %r > max(%r, %r)' % (j, py[j], ni[j], iv[i0], iv[i1]))
+            if iv is not None and ni[j] > max(ivq[i0], ivq[i1]) * (1 + 1e-12):
+                add(E + ':ivar-above-local-max', 'output pixel %d (position %.4f px) ivar %r > max(%r, %r)' % (j, py[j], ni[j], ivq[i0], ivq[i1]))
             if case['flux'] == 'const' and abs(nf[j] - 10.0) > FTOL * 10.0:
                 add(E + ':constant-not-constant', 'output pixel %d flux %r' % (j, nf[j]))
-            if case['gin'] == case['gout'] and abs(nf[j] - fin[j]) > FTOL * abs(fin[j]):
+            if case['gin'] == case['gout'] and not dex and abs(nf[j] - fin[j]) > FTOL * abs(fin[j]):
                 add(E + ':identity:flux', 'pixel %d flux %r input %r' % (j, nf[j], fin[j]))
         near = [i for i in range(n) if abs(px[i] - py[j]) <= 6.0]
         if 6.0 <= py[j] <= n - 1 - 6.0 and all(good[i] for i in near):
@@ -527,7 +548,7 @@ def check_nu(case):
             elif abs(nf[j] - ftrue[j]) > FTOL * abs(ftrue[j]):
                 add(E + ':reproduce:flux-in-clean-interior', 'output pixel %d (position %.4f px) flux %r expected %r' % (j, py[j], nf[j], ftrue[j]))
     nz = int(np.sum(ni != 0))
-    return bad, 'nonuni:%s>%s:w%s:live%d' % (case['gin'], case['gout'], '0' if nz == 0 else ('all' if nz == len(py) else 'some'), min(nlive, 1))
+    return bad, 'nonuni:%s>%s%s:w%s:live%d' % (case['gin'], case['gout'], (':dex%+g' % dex) if dex else '', '0' if nz == 0 else ('all' if nz == len(py) else 'some'), min(nlive, 1))
 
 
 def check_nu2(case):
@@ -567,6 +588,86 @@ def check_nu2(case):
                             % (j, py[j], ni[j], case['runs'])))
                 break
     return bad, 'nonuni2:%s:forced%s' % ('+'.join(case['gin']), '0' if nforced == 0 else '+')
+
+
+# ------------------------------------------------------------------------------------------------ flux dtype
+FLUX_DTYPES = ('float64', 'float32', 'int16', 'int32', 'int64')
+
+
+def counts(shape, k):
+    """Integer-valued flux (raw counts): exactly representable in every dtype of FLUX_DTYPES."""
+    k = np.asarray(k, dtype=float)
+    return 1000.0 + (3.0 * k if shape == 'lin' else 0.0 * k)
+
+
+def check_dt(case):
+    """The same integer-valued spectrum passed as float64 / float32 / int16 / int32 / int64 flux."""
+    ensure_maskbits()
+    from pydl.pydlspec2d.spec2d import combine1fiber
+    E = 'combine1fiber'
+    n = case['n']
+    kin = np.arange(n, dtype=float)
+    gk = grid_k(case['grid'], n)
+    dt = case['dtype']
+    tag = ':flux-dtype=' + ('integer' if dt.startswith('int') else dt)
+    f64 = counts(case['shape'], kin)
+    fin = f64.astype(dt)
+    assert np.array_equal(fin.astype(float), f64)
+    iv = ivar_in(case['ivar'], n, case['zeros'])
+    good = [True] * n if iv is None else [bool(v > 0) for v in iv]
+    kw = {'aesthetics': 'traditional'}
+    if iv is not None:
+        kw['objivar'] = iv.copy()
+    try:
+        nf, ni = combine1fiber(lam(kin), fin.copy(), lam(gk), **kw)
+    except Exception as e:
+        return [(exc_sig(E, e, iv is None) + tag, repr(e)[:300])], 'raises-' + type(e).__name__
+    bad = []
+    if not basic_checks(E, nf, ni, len(gk), 'traditional', bad):
+        return [(sg + tag, m) for sg, m in bad], 'malformed'
+    nf = np.asarray(nf, dtype=float)
+    ni = np.asarray(ni, dtype=float)
+    seen = set()
+
+    def add(sig, msg):
+        if sig not in seen:
+            seen.add(sig)
+            bad.append((sig + tag, msg))
+    ftrue = counts(case['shape'], gk)
+    expiv = np.interp(lam(gk), lam(kin), iv) if iv is not None else None
+    nlive = 0
+    for j, k in enumerate(gk):
+        if ni[j] != 0:
+            if not may_have_weight(k, good):
+                add('%s:ivar-nonzero:%s' % (E, why_zero(k, good)), 'output pixel %d (k=%g) has ivar %r' % (j, k, ni[j]))
+                continue
+            if iv is not None and abs(ni[j] - expiv[j]) > 1e-9 * abs(expiv[j]):
+                add(E + ':ivar-not-interpolated', 'output pixel %d (k=%g) ivar %r, interpolated input %r' % (j, k, ni[j], expiv[j]))
+            if case['shape'] == 'const' and abs(nf[j] - 1000.0) > FTOL * 1000.0:
+                add(E + ':constant-not-constant', 'output pixel %d (k=%g) flux %r' % (j, k, nf[j]))
+            if case['grid'] == 'same' and abs(nf[j] - f64[j]) > FTOL * abs(f64[j]):
+                add(E + ':identity:flux', 'pixel %d flux %r input %r' % (j, nf[j], f64[j]))
+        if case['grid'] in ('same', 'half', 'third') and clean(k, good):
+            nlive += 1
+            if not ni[j] > 0:
+                add(E + ':reproduce:ivar-zero-in-clean-interior', 'output pixel %d (k=%g): all input within 5 px good, ivar %r' % (j, k, ni[j]))
+            elif abs(nf[j] - ftrue[j]) > FTOL * abs(ftrue[j]):
+                add(E + ':reproduce:flux-in-clean-interior', 'output pixel %d (k=%g) flux %r expected %r' % (j, k, nf[j], ftrue[j]))
+    if iv is not None:
+        # scaling by c = 2 keeps the flux integer-valued and inside int16
+        rtol = 1e-5 if dt == 'float32' else 1e-9
+        try:
+            sf, si = combine1fiber(lam(kin), (2.0 * f64).astype(dt), lam(gk), objivar=iv / 4.0, aesthetics='traditional')
+            sf, si = np.asarray(sf, dtype=float), np.asarray(si, dtype=float)
+            if sf.shape != nf.shape or not np.allclose(sf, 2.0 * nf, rtol=rtol, atol=1e-9, equal_nan=True):
+                j = int(np.argmax(np.abs(sf - 2 * nf)))
+                add(E + ':scaling:flux', 'c=2: pixel %d flux(2f, ivar/4) = %r, 2*flux(f, ivar) = %r' % (j, sf[j], 2 * nf[j]))
+            if si.shape != ni.shape or not np.allclose(si, ni / 4.0, rtol=1e-9, atol=0.0, equal_nan=True):
+                add(E + ':scaling:ivar', 'c=2: ivar(2f, ivar/4) != ivar/4')
+        except Exception as e:
+            add(exc_sig(E, e, False) + ':scaled-input', repr(e)[:300])
+    nz = int(np.sum(ni != 0))
+    return bad, 'dtype:%s:w%s:live%d' % (dt, '0' if nz == 0 else ('all' if nz == len(gk) else 'some'), min(nlive, 1))
 
 
 # ------------------------------------------------------------------------------------------------ scaling ladder
@@ -705,7 +806,7 @@ def check_pp(case):
     return bad, 'obj%d:%s:%s' % (nobj, 'shifted' if any(z) else 'z0', 'given-grid' if case.get('newll') else 'own-grid')
 
 
-CHECKS = {'c1': check_c1, 'c2': check_c2, 'c3': check_c3, 'sc': check_sc, 'nu': check_nu, 'nu2': check_nu2, 'pp': check_pp}
+CHECKS = {'c1': check_c1, 'c2': check_c2, 'c3': check_c3, 'sc': check_sc, 'nu': check_nu, 'nu2': check_nu2, 'dt': check_dt, 'pp': check_pp}
 
 
 def check_case(case):
@@ -782,6 +883,25 @@ def tasks(tier):
                       'fi': [['sine', 'ramp', 'traditional']]})
         t.append({'f': 'nuw', 'n': 16, 'pairs': pairs, 'fi': [['sine', 'ramp', 'traditional']]})
         t.append({'f': 'nu2', 'gin': ['dp', 'dm'], 'gouts': ['uni'], 'starts': [0, 40, 64, 116], 'lens': [3, 12]})
+    # output grid = input grid displaced by rounding-sized / few-float32-eps amounts (outside the data on one side)
+    DEX = [5e-8, -5e-8, 3e-7, -3e-7, 2e-6, -2e-6]
+    if T:
+        for hi in range(8):
+            t.append({'f': 'nudex', 'n': 12, 'lo': hi << 9, 'hi': (hi + 1) << 9, 'gs': ['uni', 'dp'], 'dex': DEX, 'ivars': ['ramp']})
+        t.append({'f': 'nudex', 'n': 16, 'lo': 0, 'hi': 1, 'gs': ['uni', 'dp', 'dm'], 'dex': DEX, 'ivars': ['ramp', None]})
+    else:
+        for hi in range(2):
+            t.append({'f': 'nudex', 'n': 8, 'lo': hi << 7, 'hi': (hi + 1) << 7, 'gs': ['uni'], 'dex': DEX, 'ivars': ['ramp']})
+        t.append({'f': 'nudex', 'n': 16, 'lo': 0, 'hi': 1, 'gs': ['uni', 'dp'], 'dex': DEX, 'ivars': ['ramp', None]})
+    # flux dtype menu (integer-valued counts as float64 / float32 / int16 / int32 / int64)
+    if T:
+        for hi in range(8):
+            t.append({'f': 'dt', 'n': 12, 'zeros': list(range(hi << 9, (hi + 1) << 9)), 'grids': ['half'], 'shapes': ['lin'], 'ivars': ['ramp']})
+        t.append({'f': 'dt', 'n': 14, 'zeros': [0, 8, 96, 0x3f00, 16383 ^ 64], 'grids': ['same', 'half', 'third', 'wider', 'coarse'],
+                  'shapes': ['lin', 'const'], 'ivars': ['const', 'ramp', None]})
+    else:
+        t.append({'f': 'dt', 'n': 14, 'zeros': [0, 8, 96, 0x3f00], 'grids': ['same', 'half', 'wider'], 'shapes': ['lin', 'const'],
+                  'ivars': ['const', None]})
     # scaling ladder: flux*c, ivar/c^2 for c in LADDER
     if T:
         for hi in range(16):
@@ -911,6 +1031,26 @@ def run_task(task):
                 for fl, ivn, aes in task['fi']:
                     _do(acc, {'f': 'nu', 'n': n, 'zeros': zeros, 'gin': gin, 'gout': gout, 'flux': fl, 'ivar': ivn, 'aes': aes},
                         zeros != (1 << n) - 1)
+    elif f == 'nudex':
+        n = task['n']
+        for zeros in sorted(range(task['lo'], task['hi']), key=lambda v: (bin(v).count('1'), v)):
+            for g in task['gs']:
+                for dex in task['dex']:
+                    for ivn in task['ivars']:
+                        if ivn is None and zeros:
+                            continue
+                        _do(acc, {'f': 'nu', 'n': n, 'zeros': zeros, 'gin': g, 'gout': g, 'dex': dex, 'flux': 'sine', 'ivar': ivn,
+                                  'aes': 'traditional'}, zeros != (1 << n) - 1)
+    elif f == 'dt':
+        for zeros in task['zeros']:
+            for g in task['grids']:
+                for sh in task['shapes']:
+                    for ivn in task['ivars']:
+                        if ivn is None and zeros:
+                            continue
+                        for dt in FLUX_DTYPES:
+                            _do(acc, {'f': 'dt', 'n': task['n'], 'zeros': zeros, 'grid': g, 'shape': sh, 'ivar': ivn, 'dtype': dt},
+                                _nt1(task['n'], zeros, g))
     elif f == 'nuw':
         # n = 16: every pattern with at most 2 zero-weight pixels (long enough for the clean-interior guard)
         n = task['n']
